@@ -30,7 +30,7 @@ ASSUMPTIONS = [
 A_VAL = ["[C]", "[=C]", "[#C]", "[N]", "[#N]", "[O]", "[=O]", "[F]", "[S]", "[=S]", "[#S]", "[B]", "[Branch1]",
          "[=Branch1]", "[#Branch1]", "[Ring1]", "[=Ring1]", "[#Ring1]", "[Ring2]", "."]
 A_CHG = ["[C+1]", "[=C-1]", "[N+1]", "[=N+1]", "[#N-1]", "[O+1]", "[=O-1]", "[CH2]", "[=CH1]", "[NH1]", "[Fe]",
-         "[=Fe+2]", "[#Xe]", "[H]", "[#N+10]", "[=O-20]", "[Branch1]", "[#Branch1]", "[Ring1]", "[#Ring1]", "[\\/Ring1]", "."]
+         "[=Fe+2]", "[#Xe]", "[H]", "[#N+10]", "[=O-20]", "[SiH3]", "[=SeH1]", "[Branch1]", "[#Branch1]", "[Ring1]", "[#Ring1]", "[\\/Ring1]", "."]
 A_CONT = ["[C]", "[N]", "[Branch1]", "[Ring1]", "[=Ring1]", "[#Ring1]"]     # rings competing for valences from both directions
 # deeper ring contention: the shortest strings in which a ring landing on an existing bond, or a second ring on the same pair,
 # changes what a later ring at that atom may still take have 10-11 symbols; only strings starting with the atom are enumerated
